@@ -79,6 +79,7 @@ type VC struct {
 	factIndex map[*Term]int
 	varMemo   map[*Term]*big.Int
 	varIDs    map[*Term]int
+	swarDone  map[string]bool
 	ghostParent map[int]int
 	modelTerms []modelTerm
 }
@@ -102,6 +103,7 @@ type Obligation struct {
 	vc     *VC
 	Res    SolveResult
 	Cover  bool // expect sat (reachability cover)
+	RawScript string // complete SMT script (bit-vector lemmas); expect unsat
 	qfOnly bool
 	wantInst bool
 	instAsserts []*Term
